@@ -146,14 +146,25 @@ func e2eNewSHA256() hash.Hash { return &e2eHash{} }
 func e2eStrp(s string) *string { return &s }
 func e2eBoolp(b bool) *bool    { return &b }
 
-func VerifE2E_h2() {
+func e2eH2(full bool) {
 	vThreads()
 	// ---- configuration, as flags
 	preserve, probes := vBool("flag.preserveHost"), vBool("flag.kubernetesProbe")
 	flagPreserveHost, flagEnableKubernetesProbe, flagVerboseLogs = e2eBoolp(preserve), e2eBoolp(probes), e2eBoolp(false)
 	flagTimeoutHTTPIdle, flagTimeoutHTTPRead, flagTimeoutHTTPWrite, flagTimeoutTLSHandshake = e2eStrp("3m"), e2eStrp("0"), e2eStrp("0"), e2eStrp("10s")
 	flagReverseProxyFlushInterval = e2eStrp("100ms")
+	// the priority-frame limit: flag not initialised (library use), 0, 1, or more than arrive
+	limit := uint(math.MaxUint)
 	flagMaxHTTP2PriorityFrames = nil
+	nLimits := 1
+	if full {
+		nLimits = 3
+	}
+	if k := vRange("flag.maxPriorityFrames", 0, nLimits); k > 0 {
+		v := []uint{0, 0, 1, 5}[k]
+		flagMaxHTTP2PriorityFrames = &v
+		limit = v
+	}
 	backend := &url.URL{Scheme: "http", Host: "backend.internal:8080"}
 	http.DefaultTransport = &http.Transport{} // net/http's package initialiser is not run by the engine
 	handler := defaultReverseProxyHTTPHandler(backend, DefaultHeaderInjectors())
@@ -169,7 +180,10 @@ func VerifE2E_h2() {
 
 	// ---- the client: TLS ClientHello, then HTTP/2
 	// the ClientHello space itself is C01/C02/C04's subject: here two versions x two cipher lists
-	ver := []uint16{0x0303, 0x0301}[vRange("hello.version", 0, 1)]
+	ver := uint16(0x0303)
+	if full {
+		ver = []uint16{0x0303, 0x0301}[vRange("hello.version", 0, 1)]
+	}
 	cipher := []uint16{0x1301, 0x0a0a}[vRange("hello.cipher", 0, 1)]
 	hb := []byte{byte(ver >> 8), byte(ver)}
 	hb = append(hb, make([]byte, 32)...)
@@ -189,9 +203,25 @@ func VerifE2E_h2() {
 		want.WindowUpdateIncrement = inc
 		frames = append(frames, e2eFrame(8, 0, 0, e2eU32(inc)...)...)
 	}
+	nPrio := 1
+	if full {
+		nPrio = vRange("priorityFrames", 0, 2)
+	}
+	for i, n := 0, nPrio; i < n; i++ {
+		p := metadata.Priority{StreamId: uint32(3 + 2*i), StreamDep: 0, Exclusive: i == 1, Weight: vU8(vName("priority.weight", i))}
+		want.Priorities = append(want.Priorities, p)
+		dep := p.StreamDep
+		if p.Exclusive {
+			dep |= 1 << 31
+		}
+		frames = append(frames, e2eFrame(2, 0, p.StreamId, append(e2eU32(dep), p.Weight)...)...)
+	}
 	ua := []string{"", "curl/8.0 kube-probe/1.0", "kube-probe/1.27"}[vRange("userAgent", 0, 2)]
 	clientXFF := vBool("clientSendsXFF")
 	block := []byte{0x83, 0x87} // :method POST, :scheme https
+	if vBool("clientClaimsSchemeHTTP") {
+		block[1] = 0x86 // ":scheme: http" on a TLS connection: the backend must still be told https (C09)
+	}
 	block = append(block, 0x04, 12)
 	block = append(block, "/a/b?x=1&y=2"...)
 	block = append(block, 0x01, 13)
@@ -215,7 +245,10 @@ func VerifE2E_h2() {
 	want.Headers = []metadata.HeaderField{{Name: ":method"}, {Name: ":scheme"}, {Name: ":path"}, {Name: ":authority"}}
 
 	e2eBackend.n, e2eBackend.header, e2eBackend.body = 0, nil, nil
-	e2eBackend.status = []int{200, 404}[vRange("backend.status", 0, 1)]
+	e2eBackend.status = 200
+	if full {
+		e2eBackend.status = []int{200, 404}[vRange("backend.status", 0, 1)]
+	}
 	e2eBackend.respBody = vBytes("backend.body", 2)
 
 	c := newE2EConn()
@@ -293,7 +326,7 @@ func VerifE2E_h2() {
 		wantJA3, err := fp.JA3Fingerprint(md)
 		vAssert(err == nil, "record-parses")
 		vAssert(len(h["X-Ja3-Fingerprint"]) == 1 && h["X-Ja3-Fingerprint"][0] == wantJA3, "ja3-header-is-ja3-of-this-connections-hello")
-		vAssert(len(h["X-Http2-Fingerprint"]) == 1 && h["X-Http2-Fingerprint"][0] == want.Marshal(math.MaxUint), "http2-header-is-fingerprint-of-this-connections-frames")
+		vAssert(len(h["X-Http2-Fingerprint"]) == 1 && h["X-Http2-Fingerprint"][0] == want.Marshal(limit), "http2-header-is-fingerprint-of-this-connections-frames")
 		vAssert(len(h["X-Ja4-Fingerprint"]) == 1 && h["X-Ja4-Fingerprint"][0] != "spoofed", "ja4-header-set-by-proxy")
 		// C08 response direction
 		wantStatus := map[int]string{200: "200", 404: "404"}[e2eBackend.status]
@@ -314,3 +347,6 @@ func VerifE2E_h2() {
 		vFail("serve-returns-after-context-cancelled")
 	}
 }
+
+func VerifE2E_h2()          { e2eH2(false) }
+func VerifE2E_h2_thorough() { e2eH2(true) }
